@@ -474,5 +474,31 @@ pub fn registry_oracle(w: &crate::registry::RegWorld, b: &crate::registry::Built
         report.fail("oracle", "new-package-manifest-not-recorded", format!("{} is in the graph's package table but its manifest checksum was never handed to the lockfile", key), replay());
       }
     }
+    // ... and so is every manifest that supplied the checksum of a load, whether or not that load
+    // succeeded (otherwise the manifest could be replaced unnoticed before the next run)
+    for c in &b.log {
+      let Some(rest) = c.specifier.strip_prefix(REG) else { continue };
+      if c.checksum.is_none() || rest.ends_with("meta.json") {
+        continue;
+      }
+      // https://jsr.io/@scope/name/version/path
+      let seg: Vec<&str> = rest.splitn(4, '/').collect();
+      if seg.len() < 4 {
+        continue;
+      }
+      let key = format!("{}/{}@{}", seg[0], seg[1], seg[2]);
+      if w.find(&format!("{}/{}", seg[0], seg[1]), seg[2]).is_none() {
+        continue;
+      }
+      if !l0.manifests.contains_key(&key) && !l.calls.iter().any(|x| x.starts_with(&format!("set-manifest {} ", key))) {
+        report.fail(
+          "oracle",
+          "new-package-manifest-not-recorded",
+          format!("the load of {} presented a checksum from the manifest of {}, which is not in the lockfile and was never handed to it", c.specifier, key),
+          replay(),
+        );
+        break;
+      }
+    }
   }
 }
